@@ -52,6 +52,24 @@ ASSUMPTIONS = [
 # implementation runners / canonical forms
 
 
+def amb(ctx):
+    """name of the ambient configuration in a child of the sweep, None in the main run"""
+    return getattr(ctx, 'ambient', None)
+
+
+def budget(ctx, n):
+    """random-stream budget: a quarter in a child of the ambient sweep (11 children run per check)"""
+    return max(1, n // 4) if amb(ctx) else n
+
+
+def thin(ctx, stream):
+    """enumerated families: in a child every 4th case, starting at an offset that depends on the configuration, so
+    the children together still cover the enumeration and every family / call form is represented in each"""
+    if not amb(ctx):
+        return stream
+    return itertools.islice(stream, sum(map(ord, amb(ctx))) % 4, None, 4)
+
+
 # The pinned public signatures (clean tree, written down here as data - not read from the tree under test).
 REQ = '<required>'
 SIGNATURES = {
@@ -457,14 +475,13 @@ def malformed_by_construction(rng):
 def gen_commas_cases(ctx):
     rng = ctx.rng
     nmax = 4 if ctx.quick else 6
-    for n in range(0, nmax + 1):
-        for t in itertools.product(SMALL_ALPHA, repeat=n):
-            yield {'kind': 'commas', 'value': ''.join(t)}, 'exh<=%d' % nmax
-    for _ in range(6000 if ctx.quick else 60000):
+    for t in thin(ctx, (t for n in range(0, nmax + 1) for t in itertools.product(SMALL_ALPHA, repeat=n))):
+        yield {'kind': 'commas', 'value': ''.join(t)}, 'exh<=%d' % nmax
+    for _ in range(budget(ctx, 6000 if ctx.quick else 60000)):
         style = rng.choice(['canon', 'canon', 'allq', 'padded'])
         items = gen_items(rng, exotic=0.05 if rng.random() < 0.3 else 0.0)
         yield {'kind': 'commas', 'value': encode_items(rng, items, style), 'items': items, 'style': style}, 'items/' + style
-    for _ in range(4000 if ctx.quick else 40000):
+    for _ in range(budget(ctx, 4000 if ctx.quick else 40000)):
         if rng.random() < 0.5:
             v = mutate(rng, encode_items(rng, gen_items(rng), rng.choice(['canon', 'allq', 'padded'])))
             yield {'kind': 'commas', 'value': v}, 'mutated'
@@ -472,7 +489,7 @@ def gen_commas_cases(ctx):
             v, why = malformed_by_construction(rng)
             yield {'kind': 'commas', 'value': v, 'expect': 'ValueError', 'why': why}, 'malformed'
     esc = ['\\', '\\', '\\', 'x', 'u', '0', '3', '7', '2', '4', 'a', 'F', 't', 'n', 'g', '9', '"', ' ']
-    for _ in range(3000 if ctx.quick else 30000):
+    for _ in range(budget(ctx, 3000 if ctx.quick else 30000)):
         body = ''.join(rng.choice(esc) for _ in range(rng.randrange(0, 9)))
         yield {'kind': 'commas', 'value': rng.choice(['', 'a,', ' ']) + '"' + body + '"' + rng.choice(['', '', ',b'])}, 'escapes'
     for items, tag in gen_long_items(rng, ctx.quick):
@@ -483,16 +500,16 @@ def gen_commas_cases(ctx):
     for v in gen_blank_values():
         yield {'kind': 'commas', 'value': v}, 'blank-values'
     raw = ['"', '"', ',', '\\', '\\', ' ', 'a', 'b', 't', 'n', 'x', 'u', '0', '3', '4', '2', '7', 'f', '\n', '\t', '\r', '\u00e9', '\x0b']
-    for _ in range(4000 if ctx.quick else 40000):
+    for _ in range(budget(ctx, 4000 if ctx.quick else 40000)):
         yield {'kind': 'commas', 'value': ''.join(rng.choice(raw) for _ in range(rng.randrange(0, 11)))}, 'raw'
 
 
 def gen_prim_cases(ctx):
     rng = ctx.rng
-    for _ in range(2000 if ctx.quick else 30000):
+    for _ in range(budget(ctx, 2000 if ctx.quick else 30000)):
         s = ''.join(rng.choice('//ab. \u00e9') for _ in range(rng.randrange(0, 10)))
         yield {'kind': 'split', 's': s, 'n': rng.randrange(0, 9)}, 'str.split'
-    for _ in range(1000 if ctx.quick else 15000):
+    for _ in range(budget(ctx, 1000 if ctx.quick else 15000)):
         s = ''.join(rng.choice('\t\t\n\rab" \u00e9\u0301') for _ in range(rng.randrange(0, 22)))
         yield {'kind': 'tabs', 's': s}, 'str.expandtabs'
 
@@ -545,11 +562,11 @@ def correspondence(ctx):
     out = []
     rng = ctx.rng
     streams = [
-        with_forms(gen_path_cases_exhaustive(5 if ctx.quick else 7)),
-        with_forms(gen_path_edge_cases(ctx.quick), 1),
+        with_forms(thin(ctx, gen_path_cases_exhaustive(5 if ctx.quick else 7))),
+        with_forms(thin(ctx, gen_path_edge_cases(ctx.quick)), 1),
         with_forms(gen_path_long_cases(rng), 2),
-        with_forms((((gen_path_random(rng)), 'random') for _ in range(20000 if ctx.quick else 300000)), 3),
-        gen_all_forms_cases(ctx.quick),
+        with_forms((((gen_path_random(rng)), 'random') for _ in range(budget(ctx, 20000 if ctx.quick else 300000))), 3),
+        thin(ctx, gen_all_forms_cases(ctx.quick)),
         with_forms(gen_commas_cases(ctx)),
         gen_prim_cases(ctx),
     ]
@@ -571,7 +588,7 @@ def correspondence(ctx):
                 batch = []
     if batch:
         run_batch(ctx, batch, out)
-    run_seq_correspondence(ctx, out, 4000 if ctx.quick else 40000)
+    run_seq_correspondence(ctx, out, budget(ctx, 4000 if ctx.quick else 40000))
     ctx.exhaustive = True
     return out
 
@@ -786,40 +803,51 @@ def exec_seq(case):
     return trace
 
 
-def exec_seq_fresh(case, timeout=60):
-    """The same in a fresh interpreter (no earlier calls): confirms that a failure is caused by this sequence alone."""
+FRESH = {'left': 60.0}      # wall-clock seconds of fresh-interpreter work still allowed in this run (reset per search)
+
+
+class FreshBudgetExhausted(Exception):
+    pass
+
+
+def run_fresh(expr, case):
+    """Evaluate `C19.<expr>(case)` in a fresh interpreter that is in the same ambient configuration as this process
+    (no earlier calls have been made there).  All such work is bounded to 60 s of wall clock per run."""
     import json
     import os
     import subprocess
-    import sys
-    code = ('import sys, json; sys.path.insert(0, %r); import common; from props import C19; '
-            'print("TRACE" + json.dumps(C19.exec_seq(json.loads(sys.stdin.read()))))' % os.path.dirname(os.path.dirname(
-                os.path.abspath(__file__))))
+    import ambient
+    if FRESH['left'] <= 1.0:
+        raise FreshBudgetExhausted()
+    harness_dir = os.path.dirname(os.path.dirname(os.path.abspath(__file__)))
+    code = ('import sys\nsys.path.insert(0, %r)\n' % harness_dir +
+            ambient.setup_snippet('import json\nimport common\nfrom props import C19\nimport oslo_utils.strutils') +
+            'print("RESULT" + json.dumps(C19.%s(json.loads(sys.stdin.read()))))\n' % expr)
     env = dict(os.environ, PYTHONDONTWRITEBYTECODE='1', VERIF_REPO=common.REPO)
-    p = subprocess.run([sys.executable, '-c', code], input=json.dumps(case).encode(), stdout=subprocess.PIPE,
-                       stderr=subprocess.PIPE, timeout=timeout, env=env)
-    for line in p.stdout.decode().splitlines():
-        if line.startswith('TRACE'):
-            return json.loads(line[5:])
+    t0 = time.time()
+    try:
+        p = subprocess.run(ambient.fresh_interpreter_argv() + ['-c', code], input=json.dumps(case).encode('utf-8'),
+                           stdout=subprocess.PIPE, stderr=subprocess.PIPE, timeout=max(2.0, min(60.0, FRESH['left'])),
+                           env=env)
+    except subprocess.TimeoutExpired:
+        FRESH['left'] = 0.0
+        raise FreshBudgetExhausted()
+    finally:
+        FRESH['left'] -= time.time() - t0
+    for line in p.stdout.decode('utf-8', 'replace').splitlines():
+        if line.startswith('RESULT'):
+            return json.loads(line[6:])
     raise RuntimeError('fresh interpreter failed: %s' % p.stderr.decode('utf-8', 'replace')[-400:])
 
 
-def oracle_fresh(case, timeout=120):
-    """oracle(case) evaluated in a fresh interpreter: the verdict on this input alone, with no earlier calls"""
-    import json
-    import os
-    import subprocess
-    import sys
-    code = ('import sys, json; sys.path.insert(0, %r); import common; from props import C19; '
-            'print("WHY" + json.dumps(C19.oracle(json.loads(sys.stdin.read()))))' % os.path.dirname(os.path.dirname(
-                os.path.abspath(__file__))))
-    env = dict(os.environ, PYTHONDONTWRITEBYTECODE='1', VERIF_REPO=common.REPO)
-    p = subprocess.run([sys.executable, '-c', code], input=json.dumps(case).encode(), stdout=subprocess.PIPE,
-                       stderr=subprocess.PIPE, timeout=timeout, env=env)
-    for line in p.stdout.decode().splitlines():
-        if line.startswith('WHY'):
-            return json.loads(line[3:])
-    raise RuntimeError('fresh interpreter failed: %s' % p.stderr.decode('utf-8', 'replace')[-400:])
+def exec_seq_fresh(case):
+    """exec_seq in a fresh interpreter: confirms that a failure is caused by this sequence alone"""
+    return run_fresh('exec_seq', case)
+
+
+def oracle_fresh(case):
+    """oracle(case) in a fresh interpreter: the verdict on this input alone, with no earlier calls"""
+    return run_fresh('oracle', case)
 
 
 def seq_call_line(case, vi):
@@ -1055,6 +1083,7 @@ def search(ctx, seeds, full=False):
 
     shrink_budget = [60.0]       # seconds of wall clock spent on shrinking, over the whole search
     history = [0]                # single-call failures that did not reproduce in a fresh interpreter
+    FRESH['left'] = 60.0         # all fresh-interpreter work of this run
     examined = [0]               # failing single-call cases shrunk + confirmed so far (each costs a fresh interpreter)
 
     form_counter = [0]
@@ -1087,6 +1116,11 @@ def search(ctx, seeds, full=False):
             return
         try:
             fresh_why = oracle_fresh(small)
+        except FreshBudgetExhausted:
+            if fails:
+                ctx.count('search/further-failing-cases-not-examined')
+                return
+            fresh_why = why + ' [not re-checked in a fresh interpreter: the 60 s budget for that is used up]'
         except Exception as e:
             ctx.notes.append('fresh interpreter run failed: %s' % str(e)[:200])
             fresh_why = why
@@ -1114,6 +1148,9 @@ def search(ctx, seeds, full=False):
         fresh_runs[0] += 1
         try:
             why = oracle_seq(case, exec_seq_fresh(case))
+        except FreshBudgetExhausted:
+            ctx.count('search/seq-failure-not-examined-fresh-budget')
+            return
         except Exception as e:
             ctx.notes.append('fresh interpreter run failed: %s' % str(e)[:200])
             return
@@ -1121,7 +1158,10 @@ def search(ctx, seeds, full=False):
             ctx.count('search/seq-failure-not-reproduced-fresh')
             return
         small = shrink_seq(case, time.time() + 25.0)
-        why = oracle_seq(small, exec_seq_fresh(small)) or why
+        try:
+            why = oracle_seq(small, exec_seq_fresh(small)) or why
+        except Exception:
+            small = case          # keep the sequence that was confirmed
         kind = 'seq/%s/%s' % (small['fn'], 'shared-list' if 'very list object' in why else 'answer-depends-on-history')
         fails.append(Failure(small, {'kind': kind, 'what': why, 'confirmed': 'fresh interpreter'}))
 
@@ -1133,13 +1173,13 @@ def search(ctx, seeds, full=False):
         if len(fails) >= 5:
             return fails
     # call sequences: call, change the returned list, call again (both functions, every list operation)
-    for c, _ in gen_seq_cases(ctx, (3000 if full else 1500) if ctx.quick else (30000 if full else 15000)):
+    for c, _ in gen_seq_cases(ctx, budget(ctx, (3000 if full else 1500) if ctx.quick else (30000 if full else 15000))):
         consider_seq(c)
         if len(fails) >= 5:
             return fails
     # blanks / control characters at every structural position, and long inputs: always in full
-    families = [c for c, _ in gen_all_forms_cases(ctx.quick)]
-    families += [c for c, _ in gen_path_edge_cases(ctx.quick)]
+    families = [c for c, _ in thin(ctx, gen_all_forms_cases(ctx.quick))]
+    families += [c for c, _ in thin(ctx, gen_path_edge_cases(ctx.quick))]
     families += [c for c, _ in gen_path_long_cases(rng)]
     for items, _ in gen_long_items(rng, ctx.quick):
         families.append({'kind': 'commas', 'items': items, 'value': ','.join(py_quote_if_needed(x) for x in items),
@@ -1156,26 +1196,26 @@ def search(ctx, seeds, full=False):
             return fails
     # split_path: the exhaustive domain when something broke, a sample of it otherwise
     if full:
-        for case, _ in gen_path_cases_exhaustive(5 if ctx.quick else 6):
+        for case, _ in thin(ctx, gen_path_cases_exhaustive(5 if ctx.quick else 6)):
             consider(case)
             if len(fails) >= 5:
                 return fails
     else:
         pool = [p for p, _ in gen_paths_exhaustive(4)]
-        for _ in range(20000 if ctx.quick else 200000):
+        for _ in range(budget(ctx, 20000 if ctx.quick else 200000)):
             mn = rng.randrange(1, 5)
             consider({'kind': 'path', 'path': rng.choice(pool), 'minsegs': mn, 'maxsegs': rng.choice(maxsegs_choices(mn)),
                       'rest_with_last': rng.random() < 0.5})
             if len(fails) >= 5:
                 return fails
-    for _ in range((10000 if full else 5000) if ctx.quick else (100000 if full else 50000)):
+    for _ in range(budget(ctx, (10000 if full else 5000) if ctx.quick else (100000 if full else 50000))):
         c = gen_path_random(rng)
         c['minsegs'] = max(1, c['minsegs'])
         consider(c)
         if len(fails) >= 5:
             return fails
     # split_by_commas: round trip over printable ASCII, malformed classes, grammar verdict
-    n = (6000 if full else 3000) if ctx.quick else (80000 if full else 30000)
+    n = budget(ctx, (6000 if full else 3000) if ctx.quick else (80000 if full else 30000))
     for i in range(n):
         r = i % 4
         if r in (0, 1):
@@ -1204,6 +1244,7 @@ def replay(ctx, payload):
         return 0
     if case.get('kind') == 'seq':
         print('sequence      :', seq_text(case))
+        FRESH['left'] = 60.0
         tr = exec_seq_fresh(case)
         print('implementation (fresh interpreter), per call [result, same object as call]:')
         for k, (e, a) in enumerate(tr):
